@@ -2,7 +2,7 @@
     Only theorem statements; proofs are [exact] of lemmas from Proofs/. *)
 From Coq Require Import List ZArith NArith Bool.
 From HK Require Import Model.Queue Model.QueueMon Proofs.QueueBase Proofs.QueueInv Proofs.QueueInvStep
-  Proofs.QueueStep Proofs.QueueLease Proofs.QueueFence.
+  Proofs.QueueStep Proofs.QueueLease Proofs.QueueFence Proofs.QueueMonC04.
 Import ListNotations.
 Open Scope Z_scope.
 
@@ -69,9 +69,33 @@ Example C04_witness :
   = [RUnit; RItems [(7%N, 1%N, 1, 1200)]; RErr EExpired; RItems [(7%N, 2%N, 2, 2300)]; RErr ENotFound; RUnit].
 Proof. vm_compute. reflexivity. Qed.
 
+(** A lease batch settles exactly the stored messages whose current, unexpired lease it presents; every
+    other presented id is reported as a conflict, and the conflicts classified "expired" are exactly the
+    stored messages whose expired lease it presents (duplicates in the batch count once). *)
+Theorem C04_batch_counts_exact : forall c now k ls ms iss,
+  batch_kind_ok k = true -> InvL ms iss ->
+  let '(ms', n, cs) := lease_batch c now k ls ms in
+  n = Z.of_nat (length (filter (curb now (known_leases ls)) ms))
+  /\ Z.of_nat (length cs) = Z.of_nat (length ls) - n
+  /\ truecount cs = length (filter (expb now (known_leases ls)) ms).
+Proof. exact lease_batch_counts. Qed.
+
+(** The executable monitor [P_C04] - what the correspondence check evaluates on traces of the Go stores -
+    holds on every trace of the model made of Store-interface operations (there is no batch Extend). *)
+Theorem C04_monitor_holds_on_every_model_trace : forall fl c xs,
+  Forall (fun xo : op * oracle => store_lease_op (fst xo)) xs -> P_C04 fl c (model_trace fl c xs) = true.
+Proof. exact P_C04_holds_on_model. Qed.
+
+Theorem C04_monitor_holds_on_every_step : forall fl c s x o s' r,
+  store_lease_op x -> Inv s -> step fl c s x o = (s', r) -> c04_event c (mkEvent x o r (msgs s) (msgs s')) = true.
+Proof. exact c04_event_holds. Qed.
+
 Print Assumptions C04_single_op_fenced.
 Print Assumptions C04_blank_or_unknown_lease.
 Print Assumptions C04_nonpositive_extend_noop.
 Print Assumptions C04_batch_fenced.
 Print Assumptions C04_operator_mutation_voids_lease.
 Print Assumptions C04_voided_lease_never_returns.
+Print Assumptions C04_batch_counts_exact.
+Print Assumptions C04_monitor_holds_on_every_model_trace.
+Print Assumptions C04_monitor_holds_on_every_step.
